@@ -187,3 +187,38 @@ class Collection_get_member_c:
     def inv_0(self, name, _i, _seq):
         M = self.store.ghost_M
         return lists(_seq, M) and forall("int", lambda j: implies(0 <= j and j < _i, keys_list(M)[j] != name))
+
+
+fields("xandikos.web.XandikosBackend", {"path": "str", "_user_principals": "set[str]", "paranoid": "bool", "index_threshold": "opt[int]"})
+
+
+@contract("xandikos.web.XandikosBackend._mark_as_principal", params={"self": "obj:xandikos.web.XandikosBackend", "path": "str"},
+          modifies=["self._user_principals"], effects=[["mark_as_principal", "path"]])
+class Backend_mark_as_principal_c:
+    """C18: the configured principal path is registered in its normalised form (with or without
+    a trailing slash, it is the same principal), and nothing is unregistered."""
+
+    def ensures(self, path):
+        return forall("str", lambda p: (p in self._user_principals) == (p in old(self._user_principals) or p == posixpath.normpath(path)))
+
+
+@contract("xandikos.web.PrincipalBare.create", params={"cls": "none", "backend": "obj:xandikos.web.XandikosBackend", "relpath": "str"},
+          returns="obj:xandikos.web.PrincipalBare", effects=[["principal_create", "relpath"]], modifies=["fs()"], assumed=True)
+class PrincipalBare_create_c:
+    """ASSUMED here (creates the principal directory and its two home sets, existing ones are
+    kept: FileExistsError is swallowed per collection); exercised by the discovery explorer."""
+
+
+@contract("xandikos.web.XandikosBackend.create_principal",
+          params={"self": "obj:xandikos.web.XandikosBackend", "relpath": "str", "create_defaults": "bool"},
+          defaults={"create_defaults": False}, modifies=["self._user_principals", "fs()"], modifies_on_raise=["fs()", "self._user_principals"],
+          may_raise=["FileNotFoundError"])
+class Backend_create_principal_c:
+    """C18: creating a principal always registers it as one; default collections only on request."""
+
+    def requires(self):
+        return self.path != ""
+
+    def ensures(self, relpath, create_defaults):
+        return (posixpath.normpath(relpath) in self._user_principals
+                and forall("str", lambda p: implies(p in old(self._user_principals), p in self._user_principals)))
